@@ -97,7 +97,7 @@ def make_workload(seed, i):
         what = []
         for j in range(n):
             target = rng.choice(sorted({p.rsplit("/", 1)[0] for p in files}))
-            f2, d = E.invalidate(files, target, rng.fork("inv", j), rng.choice(E.INVALID_KINDS[1:5] + ["stream_in_record", "unqualified_import_ref", "unqualified_import_ref"]))
+            f2, d = E.invalidate(files, target, rng.fork("inv", j), rng.choice(E.INVALID_KINDS[1:5] + ["stream_in_record", "unqualified_import_ref", "unqualified_import_ref"] + E.RULE_KINDS))
             if f2:
                 files, _ = f2, what.append(d)
         desc["invalidations"] = what
